@@ -4,6 +4,8 @@ Lifts (refusing unknown shapes):
   * fairlearn/metrics/_metric_frame.py, `MetricFrame.__init__`: the base-name strings passed to `_process_features` for the
     sensitive and the control features, and the order in which the names are checked for duplicates
     (`namelist = self._sf_names; if self._cf_names: namelist = namelist + self._cf_names`);
+  * the reserved-name check that precedes the insertion of the feature columns into all_data
+    (`for name in self._sf_names + (self._cf_names or []): if name in all_data.columns: raise ValueError(_RESERVED_FEATURE_NAME...)`);
   * fairlearn/metrics/_group_feature.py, `GroupFeature.__init__`: the default-name format `"{0}{1}".format(base_name, index)`
     and the rule "explicit name, else a string Series.name, else the default; a non-string Series.name is rejected"."""
 import ast
@@ -70,6 +72,34 @@ def lift(repo):
                     raise U(MF, f"duplicate check has an unexpected shape: {src[:120]}")
     if order is None:
         raise U(MF, "name list for the duplicate check not found")
+    # reserved-name check: must come before the first `all_data[<feature>.name_] = ...` assignment
+    reserved = None
+    first_feature_assignment = None
+    for i, st in enumerate(body):
+        if isinstance(st, ast.For) and first_feature_assignment is None and any(
+                isinstance(n, ast.Assign) and isinstance(n.targets[0], ast.Subscript) and ast.unparse(n.targets[0].value) == "all_data"
+                and ast.unparse(n.targets[0].slice).endswith(".name_") for n in ast.walk(st)):
+            first_feature_assignment = i
+        if isinstance(st, ast.For) and isinstance(st.target, ast.Name) and isinstance(st.iter, ast.BinOp) \
+                and isinstance(st.iter.op, ast.Add):
+            l, r = ast.unparse(st.iter.left), ast.unparse(st.iter.right)
+            pair = {"self._sf_names": "sensitive", "(self._cf_names or [])": "control", "self._cf_names or []": "control"}
+            if l not in pair or r not in pair or pair[l] == pair[r]:
+                raise U(MF, f"unexpected name list of the reserved-name check: {ast.unparse(st.iter)}")
+            v = st.target.id
+            if not (len(st.body) == 1 and isinstance(st.body[0], ast.If) and not st.body[0].orelse
+                    and ast.unparse(st.body[0].test) == f"{v} in all_data.columns" and len(st.body[0].body) == 1
+                    and isinstance(st.body[0].body[0], ast.Raise)
+                    and ast.unparse(st.body[0].body[0].exc) == f"ValueError(_RESERVED_FEATURE_NAME.format({v}))"):
+                raise U(MF, f"unexpected reserved-name check: {ast.unparse(st)[:160]}")
+            if first_feature_assignment is not None:
+                raise U(MF, "the reserved-name check comes after the feature columns were written")
+            reserved = [pair[l], pair[r]]
+    if reserved is None:
+        raise U(MF, "reserved-name check (feature name in all_data.columns -> ValueError) not found: a feature could "
+                "overwrite y_true / y_pred / a sample-parameter column")
+    if first_feature_assignment is None:
+        raise U(MF, "the insertion of the feature columns into all_data was not found")
     gf = ast.parse(open(os.path.join(repo, GF)).read())
     gcls = next((n for n in gf.body if isinstance(n, ast.ClassDef) and n.name == "GroupFeature"), None)
     ginit = next((n for n in (gcls.body if gcls else []) if isinstance(n, ast.FunctionDef) and n.name == "__init__"), None)
@@ -117,8 +147,12 @@ def defaultName (base_name : String) (index : Nat) : String := {' ++ '.join(term
 /-- the duplicate check walks the sensitive names first: `namelist = {' + '.join(order)}` -/
 def sensitiveNamesFirst : Bool := {'true' if order == ['sensitive', 'control'] else 'false'}
 
+/-- before the feature columns are written into `all_data`: `for name in {' + '.join(reserved)}: if name in all_data.columns: raise ValueError` -/
+def reservedCheck : Bool := true
+def reservedSensitiveFirst : Bool := {'true' if reserved == ['sensitive', 'control'] else 'false'}
+
 end FeatureNamesSrc
 """
-    meta = {"sources": [MF, GF], "bases": bases, "format": fmt, "order": order,
+    meta = {"sources": [MF, GF], "bases": bases, "format": fmt, "order": order, "reserved": reserved,
             "sha256": hashlib.sha256(lean.encode()).hexdigest()}
     return "FeatureNamesSrc.lean", lean, meta
